@@ -156,7 +156,7 @@ package fox
 //@ extern htmlEscape pure
 //@ -- the redirect response: the given status, once, and a Location made of the given reference followed by
 //@ -- '?' and the request's raw query when there is one
-//@ func localRedirect props C08 partial
+//@ func localRedirect props C08
 //@   requires w != nil && r != nil
 //@   requires safety-url: r.URL != nil
 //@   modifies heap, wFinal, wFirst, wInfo, wBody
